@@ -119,7 +119,7 @@ Definition serialize (m : msg) : M bytes :=
 (* well-formedness of a message to be sent (boolean, see the non-vacuity examples in Props/C15.v):
    options in non-decreasing order with encodable deltas/lengths and values in canonical form *)
 Definition opt_ok (cur : Z) (o : Z * bytes) : bool :=
-  (cur <=? fst o) && (fst o - cur <? 65804) && (blen (snd o) <? 65804) && bytes_ok (snd o) &&
+  (cur <=? fst o) && (fst o - cur <? 65805) && (blen (snd o) <? 65805) && bytes_ok (snd o) &&
   match option_value (fst o) (snd o) with Ok v' => beqb v' (snd o) | Raise _ => false end.
 Fixpoint opts_ok (cur : Z) (os : list (Z * bytes)) : bool :=
   match os with [] => true | o :: r => opt_ok cur o && opts_ok (fst o) r end.
@@ -189,7 +189,8 @@ Definition abort (c : conn) (errormessage : bytes) (bad_csm_option : option Z) :
 Definition initial_csm (c : conn) : msg :=
   {| code := CSM; token := []; opts := [(2, to_minimum_bytes (my_max_message_size c)); (4, to_minimum_bytes 0)]; payload := [] |}.
 
-(* rfc8323common.py:137-150, the option loop of a CSM; the settings dict exists already *)
+(* rfc8323common.py:137-151, the option loop of a CSM; the settings dict exists already. An unknown
+   critical option aborts and returns from _process_signaling at once (the later options are not looked at) *)
 Fixpoint process_csm_options (c : conn) (s : settings) (os : list (Z * bytes)) : conn * settings * list out * bool :=
   match os with
   | [] => (c, s, [], true)
@@ -199,27 +200,16 @@ Fixpoint process_csm_options (c : conn) (s : settings) (os : list (Z * bytes)) :
     else if n =? 4 then
       process_csm_options c {| max_message_size := max_message_size s; block_wise_transfer := true |} r
     else if is_critical n then
-      let '(c1, o1, ok) := abort c txt_option_not_supported (Some n) in
-      if ok then let '(c2, s2, o2, ok2) := process_csm_options c1 s r in (c2, s2, o1 ++ o2, ok2)
-      else (c1, s, o1, false)
+      let '(c1, o1, ok) := abort c txt_option_not_supported (Some n) in (c1, s, o1, ok)
     else process_csm_options c s r
   end.
 
-(* rfc8323common.py:153-157 *)
-Fixpoint check_critical_options (c : conn) (os : list (Z * bytes)) : conn * list out * bool :=
-  match os with
-  | [] => (c, [], true)
-  | (n, _) :: r =>
-    if is_critical n then
-      let '(c1, o1, ok) := abort c txt_unknown_critical_option None in
-      if ok then let '(c2, o2, ok2) := check_critical_options c1 r in (c2, o1 ++ o2, ok2)
-      else (c1, o1, false)
-    else check_critical_options c r
-  end.
+(* rfc8323common.py:154-159: the first critical option of a Ping/Pong/Release/Abort aborts and returns *)
+Definition has_critical (os : list (Z * bytes)) : bool := existsb (fun o => is_critical (fst o)) os.
 
 Inductive sigres := SOk | SClose (e : errkind) | SExc.
 
-(* RFC8323Remote._process_signaling, rfc8323common.py:133-180 *)
+(* RFC8323Remote._process_signaling, rfc8323common.py:133-182 *)
 Definition process_signaling (c : conn) (m : msg) : conn * list out * sigres :=
   if code m =? CSM then
     let s0 := match remote_settings c with Some s => s | None => {| max_message_size := None; block_wise_transfer := false |} end in
@@ -227,14 +217,14 @@ Definition process_signaling (c : conn) (m : msg) : conn * list out * sigres :=
     (* the dict is mutated in place: what was stored before an escaping exception stays *)
     (set_settings c1 (Some s1), o, if ok then SOk else SExc)
   else if (code m =? PING) || (code m =? PONG) || (code m =? RELEASE) || (code m =? ABORT) then
-    let '(c1, o1, ok) := check_critical_options c (opts m) in
-    if negb ok then (c1, o1, SExc)
+    if has_critical (opts m) then
+      let '(c1, o1, ok) := abort c txt_unknown_critical_option None in (c1, o1, if ok then SOk else SExc)
     else if code m =? PING then
-      let '(c2, o2, ok2) := send_message c1 {| code := PONG; token := token m; opts := []; payload := [] |} in
-      (c2, o1 ++ o2, if ok2 then SOk else SExc)
-    else if code m =? PONG then (c1, o1, SOk)
-    else if code m =? RELEASE then (c1, o1, SClose PeerReleased)
-    else (c1, o1, SClose PeerAborted)
+      let '(c2, o2, ok2) := send_message c {| code := PONG; token := token m; opts := []; payload := [] |} in
+      (c2, o2, if ok2 then SOk else SExc)
+    else if code m =? PONG then (c, [], SOk)
+    else if code m =? RELEASE then (c, [], SClose PeerReleased)
+    else (c, [], SClose PeerAborted)
   else
     let '(c1, o1, ok) := abort c txt_unknown_signalling_code None in
     (c1, o1, if ok then SOk else SExc).
@@ -270,9 +260,11 @@ Definition loop_body (rec : conn -> conn * list out * ctl) (c : conn) : conn * l
           let '(c1, o1, r) := process_signaling c' m in
           match r with
           | SExc => (c1, o1, Return)
-          | SOk => let '(c2, o2, k) := rec c1 in (c2, o1 ++ o2, k)
-          | SClose e =>
-            let '(c2, o2, k) := rec (set_closed c1) in (c2, o1 ++ [DispatchError e; Close] ++ o2, k)
+          | SOk =>
+            (* tcp.py:218-222: after an own Abort the transport is closing: stop *)
+            if closed c1 then (c1, o1, Return)
+            else let '(c2, o2, k) := rec c1 in (c2, o1 ++ o2, k)
+          | SClose e => (set_closed c1, o1 ++ [DispatchError e; Close], Return)
           end
         else
           match remote_settings c' with
@@ -349,8 +341,8 @@ Definition handle_message (c : conn) (m : msg) : conn * list out * ctl :=
     let '(c1, o1, r) := process_signaling c m in
     match r with
     | SExc => (c1, o1, Return)
-    | SOk => (c1, o1, Continue)
-    | SClose e => (set_closed c1, o1 ++ [DispatchError e; Close], Continue)
+    | SOk => (c1, o1, if closed c1 then Return else Continue)
+    | SClose e => (set_closed c1, o1 ++ [DispatchError e; Close], Return)
     end
   else
     match remote_settings c with
@@ -371,7 +363,6 @@ Fixpoint process_messages (c : conn) (ms : list msg) : conn * list out :=
 (* the Abort message with diagnostic text [t] (13 <= 1 + len t < 269) and no option, as bytes:
    Len nibble 13 | TKL 0, extended length, code 7.05, payload marker, text *)
 Definition abort_frame (t : bytes) : bytes := [208; blen t + 1 - 13; ABORT; 255] ++ t.
-Definition no_critical (os : list (Z * bytes)) : bool := forallb (fun o => negb (is_critical (fst o))) os.
 
 (* the byte stream a peer produces for a sequence of messages, and "fits the local maximum" *)
 Fixpoint frames (ms : list msg) : M bytes :=
